@@ -385,3 +385,245 @@ theorem denoteSample_bg (bgl name : Str) (h : BgOk bgl name) : denoteSample bgl 
   rcases r with _ | ⟨x, _ | ⟨y, _ | ⟨z, w⟩⟩⟩ <;> simp
 
 end Reamber.Osu
+
+namespace Reamber.Osu
+
+/-! ### the sections of a skeleton -/
+
+/-- header lines followed by their bodies -/
+def flatBlocks : List (Str × List Str) → List Str
+  | [] => []
+  | b :: bs => b.1 :: (b.2 ++ flatBlocks bs)
+
+theorem sections_blocks (P : List Str) (hP : ∀ l ∈ P, isHeader l = false) (bs : List (Str × List Str))
+    (hb : ∀ b ∈ bs, isHeader b.1 = true ∧ ∀ l ∈ b.2, isHeader l = false) :
+    sections (P ++ flatBlocks bs) = (P, bs) := by
+  induction bs generalizing P with
+  | nil => simp only [flatBlocks, List.append_nil]; exact sections_noHeader P hP
+  | cons b t ih =>
+    show sections (P ++ b.1 :: (b.2 ++ flatBlocks t)) = _
+    rw [sections_append_header P hP b.1 (hb b (by simp)).1, ih b.2 (hb b (by simp)).2 (fun b' hb' => hb b' (by simp [hb']))]
+
+abbrev nb : Str → Bool := fun l => decide (l ≠ [])
+abbrev nc : Str → Bool := fun l => !isComment l
+
+/-- the sections of a skeleton after the blank lines are dropped -/
+def Skeleton.blocks (s : Skeleton) : List (Str × List Str) :=
+  (hGeneral, s.G.filter nb) :: ((if s.hasEditor then [(hEditor, s.E.filter nb)] else []) ++
+   [(hMetadata, s.M.filter nb), (hDifficulty, s.D.filter nb),
+    (hEvents, s.A.filter nb ++ kBackground :: s.bgl :: (s.B.filter nb ++ kSamples :: s.S.filter nb)),
+    (hTiming, s.T.filter nb), (hObjects, s.O.filter nb)])
+
+theorem bgl_ne_nil (bgl name : Str) (h : BgOk bgl name) : bgl ≠ [] := by
+  obtain ⟨t, rfl⟩ := bgOk_head bgl name h; simp
+
+theorem Skeleton.filter_lines (s : Skeleton) (hwf : s.WF) :
+    s.lines.filter nb = s.pre.filter nb ++ flatBlocks s.blocks := by
+  have hb := bgl_ne_nil _ _ hwf.bg
+  have e1 : nb hGeneral = true := by decide +kernel
+  have e2 : nb hEditor = true := by decide +kernel
+  have e3 : nb hMetadata = true := by decide +kernel
+  have e4 : nb hDifficulty = true := by decide +kernel
+  have e5 : nb hEvents = true := by decide +kernel
+  have e6 : nb hTiming = true := by decide +kernel
+  have e7 : nb hObjects = true := by decide +kernel
+  have e8 : nb kBackground = true := by decide +kernel
+  have e9 : nb kSamples = true := by decide +kernel
+  have e10 : nb s.bgl = true := by simp [nb, hb]
+  unfold Skeleton.lines Skeleton.head Skeleton.events Skeleton.blocks
+  cases s.hasEditor <;>
+    simp only [List.filter_append, List.filter_cons, e1, e2, e3, e4, e5, e6, e7, e8, e9, e10, if_true, flatBlocks,
+      List.append_assoc, List.cons_append, List.nil_append, List.append_nil, Bool.false_eq_true, if_false,
+      List.filter_nil]
+
+end Reamber.Osu
+
+namespace Reamber.Osu
+
+theorem filter_sub {p : Str → Prop} (X : List Str) (f : Str → Bool) (h : ∀ l ∈ X, p l) : ∀ l ∈ X.filter f, p l :=
+  fun l hl => h l (List.mem_of_mem_filter hl)
+
+theorem Skeleton.sections_eq (s : Skeleton) (hwf : s.WF) : (sections (s.lines.filter nb)).2 = s.blocks := by
+  rw [s.filter_lines hwf]
+  have hpre : ∀ l ∈ s.pre.filter nb, isHeader l = false := filter_sub (p := fun l => isHeader l = false) _ _ (fun l hl => (hwf.pre l hl).2)
+  have kv : ∀ X : List Str, (∀ l ∈ X, KvOk l) → ∀ l ∈ X.filter nb, isHeader l = false :=
+    fun X hX => filter_sub (p := fun l => isHeader l = false) _ _ (fun l hl => (hX l hl).1)
+  have hbgl : isHeader s.bgl = false := by
+    obtain ⟨t, ht⟩ := bgOk_head _ _ hwf.bg
+    unfold isHeader; rw [ht]; rfl
+  have hev : ∀ l ∈ s.A.filter nb ++ kBackground :: s.bgl :: (s.B.filter nb ++ kSamples :: s.S.filter nb),
+      isHeader l = false := by
+    intro l hl
+    simp only [List.mem_append, List.mem_cons] at hl
+    rcases hl with hl | rfl | rfl | hl | rfl | hl
+    · exact (hwf.A l (List.mem_of_mem_filter hl)).2.1
+    · decide +kernel
+    · exact hbgl
+    · exact (hwf.B l (List.mem_of_mem_filter hl)).2.1
+    · decide +kernel
+    · rcases hwf.S l (List.mem_of_mem_filter hl) with rfl | h
+      · rfl
+      · exact (sampleOk_facts l h).2.2.2
+  have hT : ∀ l ∈ s.T.filter nb, isHeader l = false := by
+    intro l hl
+    rcases hwf.T l (List.mem_of_mem_filter hl) with rfl | h
+    · rfl
+    · exact h.2.1
+  have hO : ∀ l ∈ s.O.filter nb, isHeader l = false := by
+    intro l hl
+    rcases hwf.O l (List.mem_of_mem_filter hl) with rfl | h
+    · rfl
+    · exact h.2.1
+  rw [sections_blocks _ hpre]
+  intro b hb
+  unfold Skeleton.blocks at hb
+  cases hE : s.hasEditor <;> rw [hE] at hb <;>
+    simp only [List.mem_cons, List.mem_append, List.not_mem_nil, or_false, if_true, Bool.false_eq_true, if_false,
+      false_or] at hb
+  · rcases hb with rfl | rfl | rfl | rfl | rfl | rfl
+    · exact ⟨(by decide +kernel : isHeader hGeneral = true), kv _ hwf.G⟩
+    · exact ⟨(by decide +kernel : isHeader hMetadata = true), kv _ hwf.M⟩
+    · exact ⟨(by decide +kernel : isHeader hDifficulty = true), kv _ hwf.D⟩
+    · exact ⟨(by decide +kernel : isHeader hEvents = true), hev⟩
+    · exact ⟨(by decide +kernel : isHeader hTiming = true), hT⟩
+    · exact ⟨(by decide +kernel : isHeader hObjects = true), hO⟩
+  · rcases hb with rfl | rfl | rfl | rfl | rfl | rfl | rfl
+    · exact ⟨(by decide +kernel : isHeader hGeneral = true), kv _ hwf.G⟩
+    · exact ⟨(by decide +kernel : isHeader hEditor = true), kv _ hwf.E⟩
+    · exact ⟨(by decide +kernel : isHeader hMetadata = true), kv _ hwf.M⟩
+    · exact ⟨(by decide +kernel : isHeader hDifficulty = true), kv _ hwf.D⟩
+    · exact ⟨(by decide +kernel : isHeader hEvents = true), hev⟩
+    · exact ⟨(by decide +kernel : isHeader hTiming = true), hT⟩
+    · exact ⟨(by decide +kernel : isHeader hObjects = true), hO⟩
+
+theorem Skeleton.bodies (s : Skeleton) (hwf : s.WF) :
+    body "[General]" s.blocks = s.G.filter nb ∧ body "[Editor]" s.blocks = s.E.filter nb ∧
+    body "[Metadata]" s.blocks = s.M.filter nb ∧ body "[Difficulty]" s.blocks = s.D.filter nb ∧
+    body "[Events]" s.blocks =
+      s.A.filter nb ++ kBackground :: s.bgl :: (s.B.filter nb ++ kSamples :: s.S.filter nb) ∧
+    body "[TimingPoints]" s.blocks = s.T.filter nb ∧ body "[HitObjects]" s.blocks = s.O.filter nb := by
+  have f00 : decide (hGeneral = "[General]".toList) = true := by decide +kernel
+  have f01 : decide (hGeneral = "[Editor]".toList) = false := by decide +kernel
+  have f02 : decide (hGeneral = "[Metadata]".toList) = false := by decide +kernel
+  have f03 : decide (hGeneral = "[Difficulty]".toList) = false := by decide +kernel
+  have f04 : decide (hGeneral = "[Events]".toList) = false := by decide +kernel
+  have f05 : decide (hGeneral = "[TimingPoints]".toList) = false := by decide +kernel
+  have f06 : decide (hGeneral = "[HitObjects]".toList) = false := by decide +kernel
+  have f10 : decide (hEditor = "[General]".toList) = false := by decide +kernel
+  have f11 : decide (hEditor = "[Editor]".toList) = true := by decide +kernel
+  have f12 : decide (hEditor = "[Metadata]".toList) = false := by decide +kernel
+  have f13 : decide (hEditor = "[Difficulty]".toList) = false := by decide +kernel
+  have f14 : decide (hEditor = "[Events]".toList) = false := by decide +kernel
+  have f15 : decide (hEditor = "[TimingPoints]".toList) = false := by decide +kernel
+  have f16 : decide (hEditor = "[HitObjects]".toList) = false := by decide +kernel
+  have f20 : decide (hMetadata = "[General]".toList) = false := by decide +kernel
+  have f21 : decide (hMetadata = "[Editor]".toList) = false := by decide +kernel
+  have f22 : decide (hMetadata = "[Metadata]".toList) = true := by decide +kernel
+  have f23 : decide (hMetadata = "[Difficulty]".toList) = false := by decide +kernel
+  have f24 : decide (hMetadata = "[Events]".toList) = false := by decide +kernel
+  have f25 : decide (hMetadata = "[TimingPoints]".toList) = false := by decide +kernel
+  have f26 : decide (hMetadata = "[HitObjects]".toList) = false := by decide +kernel
+  have f30 : decide (hDifficulty = "[General]".toList) = false := by decide +kernel
+  have f31 : decide (hDifficulty = "[Editor]".toList) = false := by decide +kernel
+  have f32 : decide (hDifficulty = "[Metadata]".toList) = false := by decide +kernel
+  have f33 : decide (hDifficulty = "[Difficulty]".toList) = true := by decide +kernel
+  have f34 : decide (hDifficulty = "[Events]".toList) = false := by decide +kernel
+  have f35 : decide (hDifficulty = "[TimingPoints]".toList) = false := by decide +kernel
+  have f36 : decide (hDifficulty = "[HitObjects]".toList) = false := by decide +kernel
+  have f40 : decide (hEvents = "[General]".toList) = false := by decide +kernel
+  have f41 : decide (hEvents = "[Editor]".toList) = false := by decide +kernel
+  have f42 : decide (hEvents = "[Metadata]".toList) = false := by decide +kernel
+  have f43 : decide (hEvents = "[Difficulty]".toList) = false := by decide +kernel
+  have f44 : decide (hEvents = "[Events]".toList) = true := by decide +kernel
+  have f45 : decide (hEvents = "[TimingPoints]".toList) = false := by decide +kernel
+  have f46 : decide (hEvents = "[HitObjects]".toList) = false := by decide +kernel
+  have f50 : decide (hTiming = "[General]".toList) = false := by decide +kernel
+  have f51 : decide (hTiming = "[Editor]".toList) = false := by decide +kernel
+  have f52 : decide (hTiming = "[Metadata]".toList) = false := by decide +kernel
+  have f53 : decide (hTiming = "[Difficulty]".toList) = false := by decide +kernel
+  have f54 : decide (hTiming = "[Events]".toList) = false := by decide +kernel
+  have f55 : decide (hTiming = "[TimingPoints]".toList) = true := by decide +kernel
+  have f56 : decide (hTiming = "[HitObjects]".toList) = false := by decide +kernel
+  have f60 : decide (hObjects = "[General]".toList) = false := by decide +kernel
+  have f61 : decide (hObjects = "[Editor]".toList) = false := by decide +kernel
+  have f62 : decide (hObjects = "[Metadata]".toList) = false := by decide +kernel
+  have f63 : decide (hObjects = "[Difficulty]".toList) = false := by decide +kernel
+  have f64 : decide (hObjects = "[Events]".toList) = false := by decide +kernel
+  have f65 : decide (hObjects = "[TimingPoints]".toList) = false := by decide +kernel
+  have f66 : decide (hObjects = "[HitObjects]".toList) = true := by decide +kernel
+  unfold Skeleton.blocks body
+  cases hE : s.hasEditor
+  · have hnoE := hwf.noE hE
+    simp only [hnoE, List.filter_nil, List.nil_append, List.cons_append, List.filter_cons, List.map_cons, List.map_nil,
+      List.flatten_cons, List.flatten_nil, List.append_nil, Bool.false_eq_true, if_false, if_true, f00, f01, f02, f03, f04, f05, f06, f10, f11, f12, f13, f14, f15, f16, f20, f21, f22, f23, f24, f25, f26, f30, f31, f32, f33, f34, f35, f36, f40, f41, f42, f43, f44, f45, f46, f50, f51, f52, f53, f54, f55, f56, f60, f61, f62, f63, f64, f65, f66]
+    simp
+  · simp only [List.nil_append, List.cons_append, List.filter_cons, List.filter_nil, List.map_cons, List.map_nil,
+      List.flatten_cons, List.flatten_nil, List.append_nil, Bool.false_eq_true, if_false, if_true, f00, f01, f02, f03, f04, f05, f06, f10, f11, f12, f13, f14, f15, f16, f20, f21, f22, f23, f24, f25, f26, f30, f31, f32, f33, f34, f35, f36, f40, f41, f42, f43, f44, f45, f46, f50, f51, f52, f53, f54, f55, f56, f60, f61, f62, f63, f64, f65, f66]
+    simp
+
+end Reamber.Osu
+
+namespace Reamber.Osu
+
+/-! ### the header of a skeleton under the scanning loop -/
+
+theorem inert_headers : Inert hGeneral ∧ Inert hEditor ∧ Inert hMetadata ∧ Inert hDifficulty ∧ Inert hEvents := by
+  unfold Inert; decide +kernel
+
+theorem kv_section (m : Meta) (h : Str) (hh : Inert h) (X rest : List Str) (hX : ∀ l ∈ X, KvOk l) :
+    readMeta m (h :: (X ++ rest)) = match denoteKv m X with | .ok m' => readMeta m' rest | .error e => .error e := by
+  rw [readMeta_step m m _ _ (metaStep_inert m h _ hh)]
+  exact readMeta_kv_block m X rest hX
+
+theorem Skeleton.readMeta_head (s : Skeleton) (hwf : s.WF) :
+    readMeta {} s.head =
+      match denoteKv {} (((s.G ++ s.E) ++ s.M) ++ s.D) with
+      | .error e => .error e
+      | .ok m0 => readMeta m0 s.events := by
+  obtain ⟨iG, iE, iM, iD, iEv⟩ := inert_headers
+  unfold Skeleton.head
+  rw [readMeta_inert_block _ s.pre _ (fun l hl => (hwf.pre l hl).1)]
+  rw [kv_section _ hGeneral iG s.G _ hwf.G]
+  rw [denoteKv_append, denoteKv_append, denoteKv_append]
+  cases h1 : denoteKv {} s.G with
+  | error e => rfl
+  | ok m1 =>
+    simp only []
+    have hE : readMeta m1 ((if s.hasEditor then hEditor :: s.E else []) ++
+          hMetadata :: (s.M ++ hDifficulty :: (s.D ++ hEvents :: s.events))) =
+        match denoteKv m1 s.E with
+        | .ok m2 => readMeta m2 (hMetadata :: (s.M ++ hDifficulty :: (s.D ++ hEvents :: s.events)))
+        | .error e => .error e := by
+      cases hb : s.hasEditor
+      · rw [hwf.noE hb]; rfl
+      · simp only [if_true, List.cons_append]
+        exact kv_section m1 hEditor iE s.E _ hwf.E
+    rw [hE]
+    cases h2 : denoteKv m1 s.E with
+    | error e => rfl
+    | ok m2 =>
+      simp only []
+      rw [kv_section _ hMetadata iM s.M _ hwf.M]
+      cases h3 : denoteKv m2 s.M with
+      | error e => rfl
+      | ok m3 =>
+        simp only []
+        rw [kv_section _ hDifficulty iD s.D _ hwf.D]
+        cases h4 : denoteKv m3 s.D with
+        | error e => rfl
+        | ok m4 =>
+          simp only []
+          rw [readMeta_step m4 m4 _ _ (metaStep_inert m4 hEvents _ iEv)]
+
+theorem evInert_inert {X : List Str} (h : ∀ l ∈ X, EvInert l) : ∀ l ∈ X, Inert l := fun l hl => (h l hl).1
+
+/-- the metadata the scanning loop reads from a skeleton's header: the key/value sections in file order, then the
+background name and the samples of `[Events]` -/
+theorem Skeleton.readMeta_head_ok (s : Skeleton) (hwf : s.WF) (m0 : Meta) (ss : List Sample)
+    (h0 : denoteKv {} (((s.G ++ s.E) ++ s.M) ++ s.D) = .ok m0)
+    (hss : mapE readSample (s.S.filter (startsWith pSample)) = .ok ss) :
+    readMeta {} s.head = .ok { m0 with backgroundFileName := s.bgName, samples := ss } := by
+  rw [s.readMeta_head hwf, h0]
+  exact readMeta_events m0 s.A s.B s.S s.bgl s.bgName ss (evInert_inert hwf.A) hwf.bg (evInert_inert hwf.B) hwf.S hss
+
+end Reamber.Osu
